@@ -84,13 +84,16 @@ Qed.
 Lemma agree_sound : forall c,
   tie_free (e_deadline (c_env c)) (case_plans c) = true ->
   (agree c = true <->
-   run (c_cfg c) (c_env c) (c_duty c) (c_prepare c) = ((c_prep_events c, c_prep_ok c), c_obs c)).
+   run (c_cfg c) (c_env c) (c_duty c) (c_prepare c) = ((c_prep_events c, c_prep_ok c), c_obs c)
+   /\ d_account (duty_after (c_cfg c) (c_env c) (c_duty c) (c_prepare c)) = c_post_account c
+   /\ d_randao (duty_after (c_cfg c) (c_env c) (c_duty c) (c_prepare c)) = c_post_randao c).
 Proof.
   intros c Htie. unfold agree. destruct (run (c_cfg c) (c_env c) (c_duty c) (c_prepare c)) as [[pevs pok] res].
-  rewrite Htie. cbn [negb orb]. rewrite !andb_true_iff, events_eqb_spec, bool_eqb_spec, result_eqb_spec.
+  rewrite Htie. cbn [negb orb]. rewrite !andb_true_iff, events_eqb_spec, bool_eqb_spec, result_eqb_spec,
+    (option_eqb_spec N.eqb N_eqb_spec), N.eqb_eq.
   split.
-  - intros ((-> & ->) & ->); reflexivity.
-  - intro H; injection H as -> -> ->; auto.
+  - intros ((((-> & ->) & Ha) & Hr) & ->); auto.
+  - intros (H & Ha & Hr); injection H as -> -> ->; auto.
 Qed.
 
 (* ------------------------------------------------------------------------------------------- *)
@@ -102,10 +105,11 @@ Lemma P_b_clauses : forall c, P_b c = true ->
   /\ forallb (block_event_ok c) (o_events (c_obs c)) = true
   /\ (count_events ev_sign_block (o_events (c_obs c)) <= 1)%nat
   /\ unblind_calls_ok c = true /\ submit_ok c = true /\ no_relay_no_submit_b c = true
-  /\ degrades_ok c = true /\ other_slot_refused c = true /\ unready_silent c = true.
+  /\ degrades_ok c = true /\ other_slot_refused c = true /\ unready_silent c = true
+  /\ prepared_duty_own c = true.
 Proof.
   intros c H. unfold P_b in H. rewrite !andb_true_iff in H.
-  destruct H as ((((((((((H1 & H2) & H3) & H4) & H5) & H6) & H7) & H8) & H9) & H10) & H11).
+  destruct H as (((((((((((H1 & H2) & H3) & H4) & H5) & H6) & H7) & H8) & H9) & H10) & H11) & H12).
   apply negb_true_iff in H1. apply Nat.leb_le in H5. repeat split; auto.
 Qed.
 
@@ -214,6 +218,20 @@ Proof.
   destruct (o_submit (c_obs c)); [discriminate|reflexivity].
 Qed.
 
+(* a duty whose Prepare was seen to succeed was handed to Propose with the account the provider
+   holds for its own validator and the reveal that account gave for it *)
+Lemma P_b_sound_prepared_duty_own : forall c,
+  P_b c = true -> c_prepare c = true -> c_prep_ok c = true ->
+  exists a, c_post_account c = Some a /\ provided_account c = Some a
+            /\ e_sig_randao (c_env c) = Some (c_post_randao c).
+Proof.
+  intros c HP Hp Hok. destruct (P_b_clauses c HP) as (_ & _ & _ & _ & _ & _ & _ & _ & _ & _ & H).
+  unfold prepared_duty_own in H. rewrite Hp, Hok in H. cbn [andb negb orb] in H.
+  rewrite !andb_true_iff in H. destruct H as ((Hs & Ha) & Hr).
+  apply (option_eqb_spec N.eqb N_eqb_spec) in Ha, Hr.
+  destruct (c_post_account c) as [a|]; [|discriminate]. exists a. auto.
+Qed.
+
 Lemma P_b_sound_no_panic : forall c, P_b c = true -> o_panic (c_obs c) = false.
 Proof. intros c HP; apply (P_b_clauses c HP). Qed.
 
@@ -226,6 +244,7 @@ Proof. intros c HP; apply (P_b_clauses c HP). Qed.
 Definition model_case (id : N) (cf : config) (e : env) (d : duty) (prep : bool) : case :=
   {| c_id := id; c_cfg := cf; c_env := e; c_duty := d; c_prepare := prep;
      c_prep_events := fst (fst (run cf e d prep)); c_prep_ok := snd (fst (run cf e d prep));
+     c_post_account := d_account (duty_after cf e d prep); c_post_randao := d_randao (duty_after cf e d prep);
      c_obs := snd (run cf e d prep) |}.
 
 Lemma indexed_in : forall A (l : list A) i0 i x, In (i, x) (indexed i0 l) -> exists j, i = (i0 + j)%nat /\ nth_error l j = Some x.
@@ -585,9 +604,24 @@ Proof.
   rewrite (concat_all_nil (no_calls e)); [reflexivity|]. intros i l Hn; eapply no_calls_nth; eauto.
 Qed.
 
+(* a duty the model's Prepare succeeded on carries its own account and that account's reveal *)
+Lemma clause_prepared_own : forall id cf e d prep, prepared_duty_own (model_case id cf e d prep) = true.
+Proof.
+  intros id cf e d prep. unfold prepared_duty_own, model_case, provided_account; cbn [c_prepare c_prep_ok c_post_account c_post_randao c_env c_duty].
+  destruct (run_parts cf e d prep) as (_ & Hok & _). rewrite Hok. clear Hok.
+  unfold duty_after. destruct prep; cbn [andb negb orb]; [|reflexivity].
+  unfold prepare.
+  destruct (e_accounts e) as [|m]; cbn [fst snd negb orb]; [reflexivity|].
+  destruct (Nat.eqb (length m) 1); cbn [negb fst snd orb]; [|reflexivity].
+  destruct (e_dom_randao e); cbn [negb fst snd orb]; [|reflexivity].
+  destruct (lookup_account (d_validator d) m) as [a|] eqn:Ea; cbn [fst snd negb orb]; [|reflexivity].
+  destruct (e_sig_randao e) as [s|]; cbn [fst snd negb orb]; [|reflexivity].
+  cbn. rewrite !N.eqb_refl. reflexivity.
+Qed.
+
 Theorem model_satisfies_P_b : forall id cf e d prep, P_b (model_case id cf e d prep) = true.
 Proof.
-  intros id cf e d prep. unfold P_b.
+  intros id cf e d prep. unfold P_b. rewrite (clause_prepared_own id cf e d prep).
   destruct (clause_prep_events id cf e d prep) as (H2 & H3).
   destruct (clause_block_events id cf e d prep) as (H4 & H5).
   destruct (clause_submit id cf e d prep) as (H7 & H8).
